@@ -7,7 +7,7 @@ from .state import State, dtype, key_alloc, key_card
 I = z3.IntSort()
 
 PURE_BUILTINS = {'repr', 'len', 'range', 'isinstance', 'int', 'str', 'bool', 'min', 'max', 'abs', 'all', 'any', 'divmod', 'tuple',
-                 'old', 'implies', 'fresh', 'seq', 'dom', 'unchanged', 'type', 'iff', 'card', 'content', 'ite', 'is_none', 'val', 'prefix', 'cast', 'upd', 'elements', 'elements_if'}
+                 'old', 'implies', 'fresh', 'seq', 'dom', 'unchanged', 'type', 'iff', 'card', 'content', 'ite', 'is_none', 'val', 'prefix', 'cast', 'upd', 'elements', 'elements_if', 'dom'}
 STR_METHODS = {'isupper': BOOL, 'islower': BOOL, 'upper': STR, 'lower': STR, 'startswith': BOOL, 'endswith': BOOL,
                'count': INT, 'isidentifier': BOOL, 'isdigit': BOOL, 'strip': STR, 'lstrip': STR, 'rstrip': STR,
                'encode': STR, 'decode': STR, 'find': INT, 'isalnum': BOOL, 'isalpha': BOOL, 'replace': STR, 'join': STR}
@@ -310,7 +310,10 @@ class CallMixin:
 
     def bi_tuple(self, e, st):
         for v, s in self.ev(e.args[0], st):
-            yield self.seq_of(v, s), s
+            if not isinstance(v, SeqV) and v.ty.kind == 'any':
+                yield SV(ANY, z3.Function('tuple_of_any', AnyS, AnyS)(v.z)), s       # opaque; only compared
+            else:
+                yield self.seq_of(v, s), s
 
     # ---- spec-only
     def bi_old(self, e, st):
@@ -390,6 +393,16 @@ class CallMixin:
         c = self.truthy(self.ev1(e.args[0], st), st)
         sq = self.seq_of(self.ev1(e.args[1], st), st)
         yield SeqV(sq.elem, sq.arr, z3.If(c, sq.n, 0)), st
+
+    def bi_dom(self, e, st):
+        """dom(d): the key set of a dict as a value (spec only) - use inside old(...) to talk about the keys at entry"""
+        d = self.ev1(e.args[0], st)
+        yield SV(Ty('fset', d.ty.args[0]), st.ddom(d.z, sort_of(d.ty.args[0]))), st
+
+    def bi_content(self, e, st):
+        """content(d): the key -> value map of a dict as a value (spec only); content(d)[k] is meaningful for k in dom(d)"""
+        d = self.ev1(e.args[0], st)
+        yield SV(Ty('fmap', d.ty.args[0], d.ty.args[1]), st.dval(d.z, sort_of(d.ty.args[0]), sort_of(d.ty.args[1]))), st
 
     def bi_is_none(self, e, st):
         v = self.ev1(e.args[0], st)
@@ -527,6 +540,18 @@ class CallMixin:
             new_arr = z3.Store(old_arr, n, self.coerce(v, recv.ty.args[0], s).z)
             s.lset(recv.z, es, new_arr, n + 1)
             self.seq_lemmas(SeqV(recv.ty.args[0], new_arr, n + 1), SeqV(recv.ty.args[0], old_arr, n), n, s)
+            yield SV(NONE, NONEV), s
+
+    def m_list_insert(self, recv, e, st):
+        for (iv, v), s in self.ev_many(e.args, st):
+            iz = z3.simplify(iv.z)
+            if not (z3.is_int_value(iz) and iz.as_long() == 0):
+                _unsup('list.insert at a non-zero index', e)
+            self.check_write(s, recv.z, e, 'insert')
+            elem = recv.ty.args[0]
+            one = SeqV(elem, z3.Store(fresh('ins', z3.ArraySort(I, sort_of(elem))), 0, self.coerce(v, elem, s).z), z3.IntVal(1))
+            res = self.seq_concat(one, s.list_seq(recv), s)
+            s.lset(recv.z, sort_of(elem), res.arr, res.n)
             yield SV(NONE, NONEV), s
 
     def m_list_pop(self, recv, e, st):
@@ -911,6 +936,8 @@ class CallMixin:
                 pass
             self.assume_typed(res, post, depth=0)
         for en in c.ensures:
+            if isinstance(en, tuple):
+                en = 'implies(%s, %s)' % (en[2], en[0])      # a clause with a known finding is only promised outside the recorded inputs
             self.assume_spec(en, post, env=env, old=pre, result=res, out=res if c.generator is not None else None)
         yield res, post
 
